@@ -224,7 +224,6 @@ c13_vie_i64!(c13_vie_zigzag_i64, quick, 12, Zigzag, i64::MIN, i64::MAX);
 c13_vie_u64!(c13_vie_group_u64, quick, 12, GroupVarint, 0, u64::MAX);
 c13_vie_i64!(c13_vie_group_i64, quick, 12, GroupVarint, i64::MIN, i64::MAX);
 c13_vie_i64!(c13_vie_prefixfree_i64, quick, 12, PrefixFree, i64::MIN, i64::MAX);
-c13_vie_i64!(c13_vie_delta_i64, quick, 12, Delta, i64::MIN, i64::MAX);
 c13_vie_u64!(c13_vie_compact_u64, thorough, 12, Compact, 0, u64::MAX);
 c13_vie_i64!(c13_vie_compact_i64, quick, 12, Compact, i64::MIN, i64::MAX);
 c13_vie_u64!(c13_vie_simd_u64, thorough, 12, Simd, 0, u64::MAX);
